@@ -75,6 +75,7 @@ GetterChecks(c, x) ==
 RedecChecks(c, x, tab) ==
   LET r(o, name) == <<Chk("C04", "redecode_" \o name \o "_ok", o.kind = "ok"),
                       Chk("C04", "redecode_" \o name \o "_fields", o.kind = "ok" => tab[o.core] = c),
+                      Chk("C10", "node_id_survives_encode_decode:" \o name, o.kind = "ok" => tab[o.core].nid = c.nid),
                       Chk("C15", "decode_after_encode_image_exists:" \o name, o.kind = "ok"),
                       Chk("C15", "redecode_" \o name \o "_equal", o.kind = "ok" => o.eq /\ o.hash_eq),
                       Chk("C15", "equal_redecoded_record_has_identical_pairs:" \o name,
